@@ -35,7 +35,8 @@ def run(run_, pkg, tier):
     n = optim_rules.report(run_, oa, ["C12-"])
     run_.floor("C12 rule instances", n, 40)
     run_.floor("verbose-controlled statements", getattr(oa, "n_verbose", 0), 1)
-    run_.floor("return sites of optimize", len(oa.return_nodes), 2)
+    run_.floor("abstract exit states of optimize (converged exit, iteration limit)",
+               len({(n, s.phase) for n in oa.return_nodes for s in oa.states_at(n)}), 2)
     run_.extra["exposed_self_reads"] = oa.exposed_reads
     run_.extra["roles"] = {str(k): [v[0], getattr(v[1], "lineno", None)] for k, v in sorted(oa.role.items())}
     run_.samples.append(dict(node_roles=run_.extra["roles"], abstract_states_at_loop_header=[s._asdict() for s in list(oa.states_at(oa.main_header))[:3]]))
